@@ -104,9 +104,13 @@ def writeEntries (m : Mem) : Nat → Table → Mem
   | _, [] => m
   | p, e :: r => writeEntries (writeEntry m p e) (p + entrySize) r
 
-/-- `_write_allocs`: count first, then the entries -/
+/-- the zeroed slots `_write_allocs` additionally packs right behind the list (none in the code as it stands; the
+    number is extracted, so a source that blanks "the next slot" is modelled as doing so) -/
+def trailingSlots : Table := List.replicate writeTrailingSlots (0, 0)
+
+/-- `_write_allocs`: count first, then the entries (then the trailing slots, if the source writes any) -/
 def writeAllocs (m : Mem) (t : Table) : Mem :=
-  writeEntries (writeAt m countOffset (leBytes countWidth t.length)) tableBase t
+  writeEntries (writeAt m countOffset (leBytes countWidth t.length)) tableBase (t ++ trailingSlots)
 
 /-- `ShmAllocator.reset` -/
 def resetMem (m : Mem) : Mem := writeAt m countOffset (leBytes countWidth 0)
